@@ -66,7 +66,11 @@ def check_effective_bc(prog: Program, rep, mb, rule: str) -> None:
                   [(1, Fraction(1)), (2, Fraction(2))], [(2, Fraction(2)), (1, Fraction(1))],
                   [(1, Fraction(3, 4)), (2, Fraction(5, 4)), (3, Fraction(2))], [(3, Fraction(2)), (1, Fraction(3, 4)), (2, Fraction(5, 4))],
                   [(2, Fraction(5, 4)), (3, Fraction(2)), (1, Fraction(3, 4))],
-                  [(1, Fraction(2)), (2, Fraction(3))], [(2, Fraction(1)), (1, Fraction(1, 4))]]      # a point beyond either end of the table
+                  [(1, Fraction(2)), (2, Fraction(3))], [(2, Fraction(1)), (1, Fraction(1, 4))],     # a point beyond either end of the table
+                  # points given by velocity mixed with points given by Mach (a point given by velocity keeps that velocity,
+                  # one given by Mach a zero velocity - what BCPoint.__init__ stores): 'v' marks the velocity-given ones
+                  [(1, Fraction(3, 4), 'v'), (2, Fraction(2))], [(2, Fraction(2)), (1, Fraction(3, 4), 'v')],
+                  [(1, Fraction(1)), (2, Fraction(3, 2), 'v'), (3, Fraction(9, 4))]]
 
     def expected(points, m) -> A.RF:
         pts = sorted(points, key=lambda p_: p_[1])
@@ -86,7 +90,14 @@ def check_effective_bc(prog: Program, rep, mb, rule: str) -> None:
         ev.unroll = True
         st = State()
         table = ev.new_list(st, [ev.new_inst(st, ddp, {'Mach': Scalar(m), 'CD': S(f'c{k}')}) for k, m in enumerate(table_mach, 1)])
-        pts = ev.new_list(st, [ev.new_inst(st, bcp, {'BC': S(f'b{k}'), 'Mach': Scalar(m), 'V': NONE}) for k, m in points])
+        # the fields as BCPoint.__init__ leaves them: V is a Velocity - zero for a point given by Mach, the velocity itself
+        # (here Mach x 340 m/s, any positive number would do) for one given by velocity
+        given_by_v = {p_[0] for p_ in points if len(p_) > 2}
+        points = [(p_[0], p_[1]) for p_ in points]
+        pts = ev.new_list(st, [ev.new_inst(st, bcp, {
+            'BC': S(f'b{k}'), 'Mach': Scalar(m),
+            'V': C.mk_quantity(ev, st, prog, 'Velocity', Scalar(m * 340 if k in given_by_v else Fraction(0)), 'MPS')})
+            for k, m in points])
         env = {mb.positional[0]: pts, mb.positional[1]: table,
                'weight': C.mk_quantity(ev, st, prog, 'Weight', 'w_raw', 'Grain'),
                'diameter': C.mk_quantity(ev, st, prog, 'Distance', 'd_raw', 'Inch'),
@@ -297,7 +308,9 @@ def check_interpolation(prog: Program, rep, ev: Evaluator, rule: str) -> None:
         'obligations': [{'text': L.pretty(o.text), 'status': o.status} for o in res_.obligations][:40]}
     value_obs = [o for o in res_.obligations if o.tag != 'index']
     if not value_obs:
-        rep.fail(rule, dm.path, li.node.lineno, li.qualname, 'interpolant', 'nothing is appended to the result')
+        # the result is built some other way than by appending (index / slice stores, a comprehension): nothing for the
+        # proof to attach a goal to - not decided here (R2 still evaluates the routine inside the model builder)
+        rep.undecided(rule, li.where, 'linear_interpolation', 'the result is not built by appending: no emit site to prove')
         return
     unknown = [o for o in res_.obligations if o.status != 'proved']
     if res_.witnesses:
